@@ -45,8 +45,20 @@ fn main() {
 
     match build_file(opt.source.clone(), btreeset! { get_standard_includes() }) {
         Ok(built) => {
+            // one file cannot hold both images
+            let same_file =
+                !built.code.is_empty() && !built.eeprom.is_empty() && code_path == eeprom_path;
+            if same_file {
+                failed = true;
+                println!(
+                    "Failed to generate and write hex file {}, with error flash and EEPROM image would both go to {}",
+                    file_name,
+                    code_path.to_string_lossy()
+                );
+            }
             // write to file code
-            if !built.code.is_empty() {
+            if same_file {
+            } else if !built.code.is_empty() {
                 match write_code_hex(code_path, &built) {
                     Ok(()) => {}
                     Err(e) => {
@@ -61,7 +73,8 @@ fn main() {
                 println!("Nothing to write of code for file {}", file_name);
             }
             // write to file eeprom
-            if !built.eeprom.is_empty() {
+            if same_file {
+            } else if !built.eeprom.is_empty() {
                 match write_eeprom_hex(eeprom_path, &built) {
                     Ok(()) => {}
                     Err(e) => {
